@@ -214,29 +214,26 @@ func (l *List) M__setitem__(key, value Object) (Object, error) {
 		if err != nil {
 			return nil, err
 		}
+		// Read the new items first - value may be this list itself
+		newItems, err := SequenceTuple(value)
+		if err != nil {
+			return nil, err
+		}
 		if step == 1 {
-			// Make a copy of the tail
-			tailSlice := l.Items[stop:]
-			tail := make([]Object, len(tailSlice))
-			copy(tail, tailSlice)
-			l.Items = l.Items[:start]
-			err = l.ExtendSequence(value)
-			if err != nil {
-				return nil, err
+			if stop < start {
+				stop = start
 			}
-			l.Items = append(l.Items, tail...)
+			items := make([]Object, 0, len(l.Items)-(stop-start)+len(newItems))
+			items = append(items, l.Items[:start]...)
+			items = append(items, newItems...)
+			items = append(items, l.Items[stop:]...)
+			l.Items = items
 		} else {
-			newItems, err := SequenceTuple(value)
-			if err != nil {
-				return nil, err
-			}
 			if len(newItems) != slicelength {
 				return nil, ExceptionNewf(ValueError, "attempt to assign sequence of size %d to extended slice of size %d", len(newItems), slicelength)
 			}
-			j := 0
-			for i := start; i < stop; i += step {
+			for i, j := start, 0; j < slicelength; i, j = i+step, j+1 {
 				l.Items[i] = newItems[j]
-				j++
 			}
 		}
 	} else {
@@ -257,18 +254,28 @@ func (a *List) DelItem(i int) {
 // Removes items from a list
 func (a *List) M__delitem__(key Object) (Object, error) {
 	if slice, ok := key.(*Slice); ok {
-		start, stop, step, _, err := slice.GetIndices(len(a.Items))
+		start, stop, step, slicelength, err := slice.GetIndices(len(a.Items))
 		if err != nil {
 			return nil, err
 		}
 		if step == 1 {
-			a.Items = append(a.Items[:start], a.Items[stop:]...)
-		} else {
-			j := 0
-			for i := start; i < stop; i += step {
-				a.DelItem(i - j)
-				j++
+			if stop < start {
+				stop = start
 			}
+			a.Items = append(a.Items[:start], a.Items[stop:]...)
+		} else if slicelength > 0 {
+			// Mark the items of the extended slice then compact the rest
+			deleted := make([]bool, len(a.Items))
+			for i, j := start, 0; j < slicelength; i, j = i+step, j+1 {
+				deleted[i] = true
+			}
+			items := a.Items[:0]
+			for i, item := range a.Items {
+				if !deleted[i] {
+					items = append(items, item)
+				}
+			}
+			a.Items = items
 		}
 	} else {
 		i, err := IndexIntCheck(key, len(a.Items))
